@@ -50,19 +50,21 @@ pub fn replay() {
             Ok::<_, asca::Error>(steps.last().map(|s| s.word.clone()).unwrap_or(w2))
         });
         let has_steps = vec.get("steps").is_some();
+        let exp_err = vec.get("err").and_then(|b| b.as_bool()).unwrap_or(false);       // ScanX: the reference run ends in an error (the whole word would be deleted)
         let exp_steps: Vec<(i64, bool)> = vec.get("steps").and_then(|s| s.as_array()).map(|a| a.iter().map(|s| (s[0].as_i64().unwrap(), s[1].as_bool().unwrap())).collect()).unwrap_or_default();
         let render = |w: &v::Word| v::render_word(w, &v::no_aliases());
         match &rec.result {
             Ok(Ok(w)) => {
                 let obs_steps = steps_of(&rec.events, &word);
-                if *w == exp && (!has_steps || obs_steps == exp_steps) {
+                if !exp_err && *w == exp && (!has_steps || obs_steps == exp_steps) {
                     sum.agree += 1;
                     if exp != word && sum.vectors % 101 == 0 { sum.sample(|| json!({"rule": text, "word": render(&word), "expected": render(&exp), "steps": vec["steps"]})); }
                 } else {
-                    sum.mismatch(json!({"rule": text, "word": render(&word), "expected": render(&exp), "observed": render(w), "expected_struct": vec["exp"], "observed_struct": word_json(w),
+                    sum.mismatch(json!({"rule": text, "word": render(&word), "expected": if exp_err { "an error".to_string() } else { render(&exp) }, "observed": render(w), "expected_struct": vec["exp"], "observed_struct": word_json(w),
                                         "expected_steps": vec["steps"], "observed_steps": obs_steps, "ast": vec["rule"]}));
                 }
             }
+            Ok(Err(_)) if exp_err => { sum.agree += 1; sum.count("expected_errors", 1); }
             Ok(Err(e)) => sum.mismatch(json!({"rule": text, "word": render(&word), "expected": render(&exp), "observed": {"err": err_json(e)}, "ast": vec["rule"]})),
             Err(p) => sum.mismatch(json!({"rule": text, "word": render(&word), "expected": render(&exp), "observed": {"panic": panic_msg(p)}, "ast": vec["rule"]})),
         }
